@@ -147,7 +147,70 @@ func vfC10Late(raw []byte, outstanding, abandoned map[uint16]string) (uint16, bo
 }
 
 // vfC10Check verifies that msg answers an outstanding question of this client and holds exactly its answer.
+// vfC10Whole walks a reply the way a strict parser does: the four section counts of the header must describe exactly
+// what follows, to the last octet (the library's Unpack stops quietly at the end of the message whatever the counts say).
+func vfC10Whole(raw []byte) string {
+	if len(raw) < 12 {
+		return fmt.Sprintf("%d octets, shorter than a header", len(raw))
+	}
+	qd, rrs := int(binary.BigEndian.Uint16(raw[4:])), int(binary.BigEndian.Uint16(raw[6:]))+int(binary.BigEndian.Uint16(raw[8:]))+int(binary.BigEndian.Uint16(raw[10:]))
+	off := 12
+	name := func() bool {
+		for off < len(raw) {
+			b := int(raw[off])
+			switch {
+			case b == 0:
+				off++
+				return true
+			case b&0xC0 == 0xC0:
+				off += 2
+				return off <= len(raw)
+			default:
+				off += 1 + b
+			}
+		}
+		return false
+	}
+	for i := 0; i < qd; i++ {
+		if !name() || off+4 > len(raw) {
+			return fmt.Sprintf("header counts %x promise %d question(s), the %d octets end inside question %d", raw[4:12], qd, len(raw), i+1)
+		}
+		off += 4
+	}
+	for i := 0; i < rrs; i++ {
+		if !name() || off+10 > len(raw) {
+			return fmt.Sprintf("header counts %x promise %d record(s), the %d octets end before record %d", raw[4:12], rrs, len(raw), i+1)
+		}
+		off += 10 + int(binary.BigEndian.Uint16(raw[off+8:]))
+		if off > len(raw) {
+			return fmt.Sprintf("header counts %x: record %d runs past the end of the %d octets", raw[4:12], i+1, len(raw))
+		}
+	}
+	if off != len(raw) {
+		return fmt.Sprintf("header counts %x account for %d of the %d octets", raw[4:12], off, len(raw))
+	}
+	return ""
+}
+
+// vfC10Reject judges the reply to a frame the engine turns away at the header (foreign opcode, two questions): the
+// asker's ID, an error code, and not one octet that the counts do not account for.
+func vfC10Reject(who string, raw []byte, id uint16) string {
+	if bad := vfC10Whole(raw); bad != "" {
+		return fmt.Sprintf("%s sent a frame the server refuses at the header and received a reply that is not whole: %s", who, bad)
+	}
+	if got := binary.BigEndian.Uint16(raw); got != id {
+		return fmt.Sprintf("%s sent a refused frame with id %d and received a reply with id %d", who, id, got)
+	}
+	if raw[2]&0x80 == 0 || (raw[3]&0x0f != dns.RcodeNotImplemented && raw[3]&0x0f != dns.RcodeFormatError) {
+		return fmt.Sprintf("%s sent a refused frame with id %d and received flags %x", who, id, raw[2:4])
+	}
+	return ""
+}
+
 func vfC10Check(who string, raw []byte, outstanding map[uint16]string) (uint16, string) {
+	if bad := vfC10Whole(raw); bad != "" {
+		return 0, fmt.Sprintf("%s received a reply that is not whole: %s", who, bad)
+	}
 	m := new(dns.Msg)
 	if err := m.Unpack(raw); err != nil {
 		return 0, fmt.Sprintf("%s received %d bytes that do not decode: %v", who, len(raw), err)
@@ -200,7 +263,7 @@ func vfC10Run(t *testing.T, dir string, p vfC10Params) (violation string, stats 
 		s := fmt.Sprintf(f, a...)
 		viol.CompareAndSwap(nil, &s)
 	}
-	var answered, unanswered, inlineHits, frames, slowStreams atomic.Int64
+	var answered, unanswered, inlineHits, frames, slowStreams, rejects atomic.Int64
 	cfg := vfBaseConfig(dir)
 	cfg.IngressWorkers = p.Workers
 	cfg.RateLimit, cfg.ClientRateLimit = 0, 0
@@ -344,8 +407,21 @@ func vfC10Run(t *testing.T, dir string, p vfC10Params) (violation string, stats 
 					if b%4 == 3 && q == bigAt {
 						name = fmt.Sprintf("big-t%d-b%d.tcp.test.", j, b) // an uncached oversized one
 					}
-					names = append(names, name)
 					raw := pack(uint16(1000+q), name)
+					if (b+2*j+q)%7 == 6 && q > 0 {
+						// a frame the engine refuses at the header, after the connection's buffers have carried replies:
+						// a bare header with a foreign opcode, or a query that announces two questions
+						name = ""
+						if (b+j)%2 == 0 {
+							raw = make([]byte, 12)
+							binary.BigEndian.PutUint16(raw, uint16(1000+q))
+							raw[2] = 5 << 3 // UPDATE
+						} else {
+							raw = append([]byte(nil), raw...)
+							raw[5] = 2
+						}
+					}
+					names = append(names, name)
 					frame := make([]byte, 2+len(raw))
 					binary.BigEndian.PutUint16(frame, uint16(len(raw)))
 					copy(frame[2:], raw)
@@ -370,6 +446,15 @@ func vfC10Run(t *testing.T, dir string, p vfC10Params) (violation string, stats 
 						report("%s: burst %d: reply %d is cut short (%v)", who, b, q, err)
 						return
 					}
+					if names[q] == "" {
+						if bad := vfC10Reject(who, body, uint16(1000+q)); bad != "" {
+							report("%s: burst %d, position %d of %d: %s", who, b, q, nq, bad)
+							return
+						}
+						rejects.Add(1)
+						frames.Add(1)
+						continue
+					}
 					// in query order, one per query: reply q must answer query q
 					if _, bad := vfC10Check(who, body, map[uint16]string{uint16(1000 + q): names[q]}); bad != "" {
 						report("%s: burst %d, position %d of %d (replies must come whole, one per query, in query order): %s", who, b, q, nq, bad)
@@ -391,7 +476,7 @@ func vfC10Run(t *testing.T, dir string, p vfC10Params) (violation string, stats 
 		}()
 	}
 	wg.Wait()
-	stats = map[string]int64{"tcp-boundary-bursts": boundary.Load(), "udp-answered": answered.Load(), "udp-unanswered": unanswered.Load(), "udp-hit-answers": inlineHits.Load(), "tcp-frames": frames.Load(), "tcp-read-timeouts": slowStreams.Load(), "handler-calls": stub.calls.Load() - warm}
+	stats = map[string]int64{"tcp-boundary-bursts": boundary.Load(), "udp-answered": answered.Load(), "udp-unanswered": unanswered.Load(), "udp-hit-answers": inlineHits.Load(), "tcp-frames": frames.Load(), "tcp-header-rejections": rejects.Load(), "tcp-read-timeouts": slowStreams.Load(), "handler-calls": stub.calls.Load() - warm}
 	if v := viol.Load(); v != nil {
 		violation = *v
 	}
@@ -540,6 +625,9 @@ func TestVerifC10Sockets(t *testing.T) {
 		}
 		if stats["udp-unanswered"] > 0 {
 			vfstat.Class(U, "questions-without-reply")
+		}
+		if stats["tcp-header-rejections"] > 0 {
+			vfstat.Class(U, "header-rejections-on-used-buffers")
 		}
 		if stats["udp-answered"] > 50 {
 			vfstat.NonTrivial(U, fmt.Sprint(p))
